@@ -18,6 +18,8 @@ RULE_NAMES = {10: 'waitq push (under waitq.lock + thread.lock; primitive lock st
               17: 'standbyq push (under standbyq.lock + thread.lock)', 18: 'standbyq drain',
               20: 'mutex hand-off (under mutex.splock + head thread.lock)', 21: 'semaphore add (under splock)',
               22: 'semaphore subtract (under splock)', 23: 'rwlock state change (under its mutex)',
+              25: 'thread stack release dispose() (under thread.lock: joiner or dying thread)',
+              26: 'mutex slow path: failed owner-CAS and enqueue in ONE splock section',
               24: 'semaphore resume pass try_resume (under splock: the signaller must not touch the semaphore after the waiter it woke can return)'}
 
 
